@@ -173,6 +173,23 @@ def w_words(acc, nwords, first_word, small):
     harness.run_cases(acc, "pair", o_pair, it, distinct_by_construction=True)
 
 
+GROUPS = ["{Simon and Schuster}", "{Procter {\\&} Gamble and Co.}", "{{a} and b}", "{a {b} and {c} and d}", "{{{x}} and {y {z} and w}}", "{and}", "{A and}{ and B}"]
+TEMPLATES = ["%s", "Xx %s", "%s, Xx", "von %s, Jr, Xx", "%s Yy", "xx %s"]
+
+
+def w_protected_and(acc, gi):
+    """The word ` and ` protected by (nested) braces inside a person: it never separates co-authors, at any depth."""
+    persons = [t % GROUPS[gi] for t in TEMPLATES]
+    others = [t % g for t in TEMPLATES[:3] for g in GROUPS] + ["Aa Bb", "de la Fontaine, Jean"]
+    for p in persons:
+        vals = [p] + [p + " and " + o for o in others] + [o + " and " + p for o in others] + [o + " and " + p + " and " + o2 for o in others[:6] for o2 in others[-4:]]
+        for v in vals:
+            acc.run("pair", o_pair, v, True)
+            acc.run("middleware", o_middleware, {"fields": [["author", v], ["title", "T and U"]], "inplace": len(v) % 2 == 0}, True)
+            acc.run("stack", o_stack, {"field": "editor" if len(v) % 3 else "author", "value": v, "quote": False}, True)
+    acc.classes["and-inside-nested-group"] += 1
+
+
 def w_large(acc, n):
     persons = ["AA%d bb CC%d" % (i, i) if i % 2 else "bb%d Dd%d, Jr, Ee {Ff%d}" % (i, i, i) for i in range(n)]
     v = " and ".join(persons)
@@ -251,6 +268,7 @@ def run(chk):
     for nw in range(1, 4 if quick else 5):
         tasks.append(("w_stack_enum", (nw,)))
     tasks += [("w_large", (n,)) for n in (130, 300, 1100)]
+    tasks += [("w_protected_and", (gi,)) for gi in range(len(GROUPS))]
     n_rand = 12000 if quick else 300000
     shards = 8 if quick else 32
     for s in range(shards):
@@ -269,7 +287,7 @@ def run(chk):
         "the four middlewares and through parse_string(append_middleware)/write_string(prepend_middleware)/parse_string. "
         "Non-trivial: >= 2 persons or a person with von or jr (pair), any in-domain case (middleware, stack)."
     )
-    chk.required_classes = ["persons>=2", "has-von", "has-jr", "multiword-last", "mw", "stack", "quoted", "braced"]
+    chk.required_classes = ["persons>=2", "has-von", "has-jr", "multiword-last", "mw", "stack", "quoted", "braced", "and-inside-nested-group"]
     chk.assumptions = [
         "full-stack sub-check: author values ending in a backslash are left out (the document would not be in the dialect: a closing delimiter directly after a backslash is not structural for the splitter)",
     ]
